@@ -35,7 +35,7 @@ static_assert(P::IsModelEigen<SModel> && P::IsModelEigen<PModel>);
 
 static uint64_t g_seed = 0;
 static const long NSOLV = 7;        // blind, fib+qmdp, pbvi, perseus, sarsop, gapmin, kernels(bestConservative/bestPromising)
-static const long NFIXED = 20;      // hand-written witness / regression POMDPs come first (10, 11: GapMin regression instances)
+static const long NFIXED = 22;      // hand-written witness / regression POMDPs come first (10, 11: GapMin regression instances)
 
 struct Inst {
     PomdpTables t;
@@ -162,6 +162,15 @@ static Inst fixedInst(long k) {
         for (size_t s = 0; s < 2; ++s) { t.Ob[0](s, 0) = 1.0 - p; t.Ob[0](s, 1) = p; t.R(s, 0) = -8.0; t.R(s, 1) = -9.0; }
         t.Ob[1](0, 0) = 0.875; t.Ob[1](0, 1) = 0.125; t.Ob[1](1, 0) = 0.125; t.Ob[1](1, 1) = 0.875;
         I.b0 = vec({0.5, 0.5}); I.shape = "fixed_cutoff_witness_lower"; I.gapDigits = 4;
+        break;
+    }
+    // Sparse Eigen model whose reward matrix has entries that are not stored (zeros): FastInformedBound takes its start from the stored values
+    // only. 20: rewards -1 / 0 (the true maximum 0 is an implicit zero); 21: all rewards zero (nothing stored).
+    case 20: case 21: {
+        Rng r(0xC03C03ull + (uint64_t)k);
+        I.t = randomPomdp(r, 3, 2, 2);
+        for (size_t s = 0; s < 3; ++s) for (size_t a = 0; a < 2; ++a) I.t.R(s, a) = (k == 20 && (s + a) % 3 == 0) ? -1.0 : 0.0;
+        I.b0 = vec({0.5, 0.25, 0.25}); I.shape = "fixed_sparse_zero_rewards"; I.kind = 1;
         break;
     }
     default: {
